@@ -157,13 +157,18 @@ func spec_sent(i int) Token { panic("spec") }
 //@     (forall k1, k2 string :: has(v.idsymtabl, k1) && has(v.idsymtabl, k2) && k1 != k2 ==> v.idsymtabl[k1] != v.idsymtabl[k2])
 
 //@ func (*astDeclareVistor).Process
-//@ props C11 C04
+//@ props C11 C04 C12 C07
 //@ requires v != nil && node != nil && tableOK(v) && iface_val(*node) != 0
 //@ may_panic ""
 //@ ensures [C11] tableOK(v)
 //@ loop 0: invariant tableOK(v)
 //@ loop 1: invariant tableOK(v)
 //@ loop 2: invariant tableOK(v)
+// %type: the tag reaches the identifier (C07); an identifier that exists keeps its kind - a token typed through %type stays a
+// token - and only a NEW name becomes a nonterminal (C12: otherwise a usable grammar is refused for a "nonterminal" without rule)
+//@ loop 2: end_of_body [C07] v.idsymtabl[rng2[idx2].IdName] != nil && v.idsymtabl[rng2[idx2].IdName].Tag == rng2[idx2].Tag
+//@ loop 2: end_of_body [C12] forall k string :: at_head(v.idsymtabl[k]) != nil ==> v.idsymtabl[k] == at_head(v.idsymtabl[k]) && v.idsymtabl[k].IDTyp == at_head(v.idsymtabl[k].IDTyp)
+//@ loop 2: end_of_body [C12] at_head(v.idsymtabl[rng2[idx2].IdName]) == nil ==> v.idsymtabl[rng2[idx2].IdName].IDTyp == NONTERMID
 //@ loop 3: invariant tableOK(v)
 // C04: the k-th %left/%right/%nonassoc line gets precedence level (level before) + k: later lines bind tighter,
 // and every symbol of a line gets that line's level and associativity
@@ -514,7 +519,7 @@ func spec_sent(i int) Token { panic("spec") }
 //@ def assocOf(a PrecAssocType) = ite(a == LeftAssocType, symbol.LEFT, ite(a == RightAssocype, symbol.RIGHT, symbol.NONE))
 
 //@ func (*Walker).BuildLALR1
-//@ props_tagged_only C11 C04 C12 C07 C01 C02
+//@ props_tagged_only C11 C04 C12 C07 C01 C02 C17 C08 C06
 //@ requires w != nil
 //@ may_panic "Check the nonterminal"
 //@ may_panic "Dected infinite loop"
@@ -524,10 +529,10 @@ func spec_sent(i int) Token { panic("spec") }
 //@ before_stmt [C04] "g.InsertNewSymbol(sy)" id.IDTyp != NONTERMID && v.preMap[id.Name] != nil ==> sy.Prec == v.preMap[id.Name].Prec && sy.PrecType == assocOf(v.preMap[id.Name].AssocType)
 //@ before_stmt [C04] "g.InsertNewSymbol(sy)" id.IDTyp == NONTERMID || v.preMap[id.Name] == nil ==> sy.Prec == -1 && sy.PrecType == symbol.NONE
 //@ before_stmt [C04] "g.InsertNewRules(r)" (onerule.PrecIdSym != nil ==> r.PrecSymbol == g.SymbolsMap[onerule.PrecIdSym.Id.Name]) && (onerule.PrecIdSym == nil ==> r.PrecSymbol == nil)
-//@ before_stmt [C04,C07,C01,C02] "g.InsertNewRules(r)" len(g.ProductoinRules) == 1 + idx2 && r.LeftPart == g.SymbolsMap[onerule.LeftPart.Name] && len(r.RighPart) == len(onerule.RighPart)
-//@ before_stmt [C04,C07,C01,C02] "g.InsertNewRules(r)" forall k int :: 0 <= k && k < len(r.RighPart) ==> r.RighPart[k] == g.SymbolsMap[onerule.RighPart[k].Name]
-//@ loop 2: invariant [C04,C07,C01,C02] len(g.ProductoinRules) == 1 + idx2
-//@ loop 3: invariant [C04,C07,C01,C02] len(rightsyms) == idx3 && (forall k int :: 0 <= k && k < idx3 ==> rightsyms[k] == g.SymbolsMap[onerule.RighPart[k].Name])
+//@ before_stmt [C04,C07,C01,C02,C17,C08,C06] "g.InsertNewRules(r)" len(g.ProductoinRules) == 1 + idx2 && r.LeftPart == g.SymbolsMap[onerule.LeftPart.Name] && len(r.RighPart) == len(onerule.RighPart)
+//@ before_stmt [C04,C07,C01,C02,C17,C08,C06] "g.InsertNewRules(r)" forall k int :: 0 <= k && k < len(r.RighPart) ==> r.RighPart[k] == g.SymbolsMap[onerule.RighPart[k].Name]
+//@ loop 2: invariant [C04,C07,C01,C02,C17,C08,C06] len(g.ProductoinRules) == 1 + idx2
+//@ loop 3: invariant [C04,C07,C01,C02,C17,C08,C06] len(rightsyms) == idx3 && (forall k int :: 0 <= k && k < idx3 ==> rightsyms[k] == g.SymbolsMap[onerule.RighPart[k].Name])
 // a nonterminal identifier (left-hand side of a rule, %type or %start name) becomes a nonterminal symbol, so the check below sees it
 //@ before_stmt [C12] "g.InsertNewSymbol(sy)" sy.IsNonTerminator == (id.IDTyp == NONTERMID) && sy.CanTerminate == (id.IDTyp != NONTERMID)
 //@ loop 4: invariant [C12] forall i int :: 0 <= i && i < idx4 && g.Symbols[i].IsNonTerminator ==> has(g.VnSet, g.Symbols[i])
